@@ -125,6 +125,9 @@ fn stub_path_join<P: AsRef<std::path::Path>>(_this: &std::path::Path, _p: P) -> 
     std::path::PathBuf::new()
 }
 
+/// memory is never freed (see verif_generate.rs::stub_dealloc)
+unsafe fn stub_dealloc(_ptr: *mut u8, _layout: std::alloc::Layout) {}
+
 fn any_config() -> Config
 {
     Config {
@@ -150,6 +153,7 @@ fn any_config() -> Config
 #[kani::stub(std::fs::rename, stub_rename)]
 #[kani::stub(std::fs::write, stub_write)]
 #[kani::stub(std::path::Path::join, stub_path_join)]
+#[kani::stub(std::alloc::dealloc, stub_dealloc)]
 fn u_ctx_read()
 {
     log::set_max_level(log::LevelFilter::Off);
@@ -191,6 +195,7 @@ fn u_ctx_read()
 #[kani::stub(std::fs::remove_file, stub_remove_file)]
 #[kani::stub(std::fs::rename, stub_rename)]
 #[kani::stub(std::path::Path::join, stub_path_join)]
+#[kani::stub(std::alloc::dealloc, stub_dealloc)]
 fn u_ctx_write()
 {
     log::set_max_level(log::LevelFilter::Off);
